@@ -18,6 +18,16 @@ const (
 	levelCount // iota sentinel: must never be generated
 )
 
+// Grade has an exported alias: two names for one value.
+type Grade int
+
+const (
+	Poor Grade = iota
+	Fair
+	Good
+	DefaultGrade = Fair
+)
+
 type Mood string
 
 const (
